@@ -5,8 +5,6 @@
 package parser
 
 import (
-	"strings"
-
 	"github.com/ajitpratap0/GoSQLX/pkg/models"
 	"github.com/ajitpratap0/GoSQLX/pkg/sql/ast"
 )
@@ -43,7 +41,7 @@ func (p *Parser) parseFunctionCall(funcName string) (*ast.FunctionCall, error) {
 				p.advance() // Consume comma
 			} else if p.isType(models.TokenTypeRParen) || p.isType(models.TokenTypeOrder) {
 				break
-			} else if strings.ToUpper(p.currentToken.Literal) == "SEPARATOR" {
+			} else if p.isTokenMatch("SEPARATOR") {
 				// MySQL GROUP_CONCAT SEPARATOR clause
 				p.advance() // Consume SEPARATOR
 				sepArg, err := p.parseExpression()
@@ -107,7 +105,7 @@ func (p *Parser) parseFunctionCall(funcName string) (*ast.FunctionCall, error) {
 				p.advance() // Consume comma
 			} else if p.isType(models.TokenTypeRParen) {
 				break
-			} else if strings.EqualFold(p.currentToken.Literal, "SEPARATOR") {
+			} else if p.isTokenMatch("SEPARATOR") {
 				break // Let SEPARATOR be handled below
 			} else {
 				return nil, p.expectedError(", or )")
@@ -116,7 +114,7 @@ func (p *Parser) parseFunctionCall(funcName string) (*ast.FunctionCall, error) {
 	}
 
 	// Handle MySQL SEPARATOR clause (GROUP_CONCAT)
-	if strings.EqualFold(p.currentToken.Literal, "SEPARATOR") {
+	if p.isTokenMatch("SEPARATOR") {
 		p.advance() // Consume SEPARATOR
 		sepExpr, err := p.parseExpression()
 		if err != nil {
